@@ -221,7 +221,7 @@ pub open spec fn other_occurrences(occ: Seq<Identifier>, doc: AnalyzedSource, ur
 //@ after_closure |i| nth 1 of 2
 , Ghost(|id: Identifier| name_range(doc.tokens@, id.info.range)), Ghost(|name: Seq<char>, r: Range<usize>| !(name == ident.value@ && r == ident.range)), Ghost(|r: Range<usize>| Location { uri, range: lsp_range(r, doc.text@) })
 //@end
-//~not_decided `doc_cursor` (async), `DocumentCursor::ident` (assumed), the outermost iteration of find_procs / find_types / find_vars over the global declarations, "applying a rename yields a program with the same diagnostics" and "renaming back restores the text" (relations between runs of the whole front end)
+//~not_decided "applying a rename yields a program with the same diagnostics" and "renaming back restores the text" (relations between runs of the whole front end); the walks are under contract in unit `refs`, the cursor in unit `cursor`
 //~assume a procedure has no parameter or local variable of its own name (the handlers decide by name whether the cursor is on the enclosing procedure's own name)
 }
 fn main() {}
